@@ -889,15 +889,52 @@ func checkC16(c *Ctx) {
 			c.drift(lc.viol("diagnostic class differs (unconstrained by C16)", md))
 		}
 	}
+	// an undecidable comparison followed by one whose Stringer panics: the call ends in a recovered panic and the
+	// diagnostic of the first comparison must still be reported (the statement does not exempt failing calls)
+	for i := 0; i < n/20 && !c.full(); i++ {
+		a := genLeaf(c.R, 3)
+		for a.T != NCmp || a.Lit.Kind == "null" {
+			a = genLeaf(c.R, 3)
+		}
+		b := &Node{T: NCmp, Path: []string{"sq9"}, Op: 13 + c.R.Intn(9), Lit: genLit(c.R, "str")}
+		if a.Path[0] == "sq9" {
+			continue
+		}
+		obj := avObj()
+		obj.Set("sq9", &AV{K: AVStringerPanic, ID: 1 + c.R.Intn(5)})
+		var rule *Node
+		if c.R.Chance(1, 2) {
+			rule = &Node{T: NLogic, Or: true, L: a, R: b}
+		} else {
+			rule = &Node{T: NLogic, L: &Node{T: NParen, Neg: true, Q: a}, R: b}
+		}
+		text := c.style(c.R.Chance(1, 3)).Render(rule)
+		alone := evalFresh(c.style(true).Render(a), obj.GoMap())
+		got := evalOn(text, obj.GoMap(), poisonObjects(c.R, rule))
+		c.Res.Evaluations++
+		c.count("undecidable_then_panicking_stringer")
+		if alone.E != "-" || alone.D == "-" {
+			continue // the first comparison fails the rule by itself or is decided (unsupported operator, odd literal)
+		}
+		c.nontrivial(text, obj.String())
+		if got.E != "panic" || got.D == "-" || got.V {
+			c.violate(Violation{What: "LastDebugErr does not tell exactly when a reached comparison could not be decided", Rule: text, RuleHex: hx(text), Object: obj.Pretty(), ObjProto: obj.String(),
+				Demand: "the first comparison is reached and undecidable (alone: " + alone.Line() + "), the second ends the call in a recovered panic: verdict false, an error, LastDebugErr()!=nil",
+				Go: got.Line() + " " + got.ErrText})
+		}
+	}
 	c.combLoop(n, 8, func() *Node { return genLeaf(c.R, 3) }, ObjOpts{AbsentPct: 20, NilPct: 8, NullParent: 10}, func(cc *combCase) *Violation {
 		if !cc.shapeOK {
 			c.count("outside_domain_non_object_in_path")
 			return nil
 		}
 		for _, o := range cc.leafObs {
-			if o.E == "badlit" || o.E == "panic" || o.E == "escaped" || o.E == "newerr" {
-				c.count("outside_domain_bad_literal_or_panic")
+			if o.E == "badlit" || o.E == "escaped" || o.E == "newerr" {
+				c.count("outside_domain_bad_literal")
 				return nil
+			}
+			if o.E == "panic" {
+				c.count("a_reached_comparison_ends_the_call_in_a_recovered_panic")
 			}
 		}
 		some := false
